@@ -105,6 +105,9 @@ _GRADIENT_TRANSFORM_NDIGITS = 6
 
 
 def _clamp(value: float, minv: float = 0.0, maxv: float = 1.0) -> float:
+    if value != value:
+        # float() accepts "nan", min/max would let it through
+        raise ValueError("NaN is not a valid value")
     return max(min(value, maxv), minv)
 
 
